@@ -13,6 +13,12 @@ def _c09_extra(repo, reg, tier):
     return scan(repo, reg, tier)
 
 
+def _c09_frozen(repo, reg, tier):
+    from contracts.persist import frozen_field_obligations
+
+    return frozen_field_obligations(repo, reg, tier)
+
+
 def _c18_extra(repo, reg, tier):
     from contracts.lazy import bounded_extra
 
@@ -23,6 +29,13 @@ def _c18_scan(repo, reg, tier):
     from contracts.lazy import effect_scan
 
     return effect_scan(repo, reg, tier)
+
+
+def _c18_frame(repo, reg, tier):
+    from contracts.iteration import frame_obligations_iteration
+
+    # "results can be iterated repeatedly with identical rows": nothing in the iteration engine writes to an object it did not build
+    return frame_obligations_iteration(repo, "C18/"), []
 
 
 def _c01_extra(repo, reg, tier):
@@ -39,13 +52,13 @@ def _rowiter_scan(repo, reg, tier):
 
 PROPS: dict[str, dict] = {
     "C12": {
-        "modules": ["sqlexpr"],
+        "modules": ["sqlexpr", "itconv"],
         "extra": [_c01_extra],
         "assumptions": ["SQL denotation of the SQLAlchemy builder calls (contracts/sqlexpr.py): integer arithmetic mathematical, two-valued comparisons on NULL-free rows, AND/OR/NOT, BETWEEN inclusive, IN (...), % truncating toward zero; the database evaluates that SQL as stated, no overflow",
                         "GenericConcreteEngine.get_function(name) is the operator module's function for the portable names",
                         "law library spec/laws.py incl. the integer laws mod-congruence / floor-division / emod-small-negative (status per law in coverage.law_library)",
-                        "iteration side: the converted callables are covered by the bounded native stand-in replay/bounded_rowiter.py, not proved"],
-        "explanation": "sql.Engine.convert_column_expression / convert_predicate: every match arm denotes the expression's value under the stated SQL semantics, for all expression trees over the portable operator set and all rows",
+                        "iteration side (contracts/itconv.py): a stored callable applied to a row is modelled as an integer-valued total function of the row (bools as 0/1, literal value objects through lit_int); rows handed to a callable have the columns the expression mentions"],
+        "explanation": "sql.Engine.convert_column_expression / convert_predicate: every match arm denotes the expression's value under the stated SQL semantics; iteration.Engine.convert_column_expression / convert_column_container / convert_predicate: the returned closure (the real lambda, executed on the Skolem witness row) computes the expression's / container's / predicate's value -- for all expression trees over the portable operator set and all rows",
     },
     "C01": {
         "modules": ["iteration"],
@@ -53,14 +66,16 @@ PROPS: dict[str, dict] = {
         # the construction-time merging contracts (Slice.then, Sort.then, simplify, _finish_apply) are part of this check
         "depends": ["C05"],
         "extra": [_c01_extra, _rowiter_scan],
-        "assumptions": ["leaf payloads are re-iterable and hold the leaf's rows; iteration-engine leaves always carry a payload",
+        "assumptions": ["leaf payloads are re-iterable and hold the leaf's rows; iteration-engine leaves always carry a payload; a user-built RowMapping holds rows that are unique on its key (documented requirement)",
+                        "model of Python values in the iteration engine (DESIGN 2.2): a row dict is a key set plus a total map that is 0 outside it; generators are the loops they abbreviate (ghost output sequence); a dict comprehension keyed on columns is the insertion-ordered fold abstracted by its values; itertools.groupby yields the maximal runs; list.sort is stable also with reverse=True; stored callables are pure, total, integer-valued",
+                        "law sortc-group (one stable sort by the tuple of a same-direction group's values == the passes of the group's terms one by one) is bounded-checked natively, not Lean-proved",
                         "law library spec/laws.py (status per law in coverage.law_library)",
                         "independence of merging/elision/reordering at construction time is C05 (UnaryOperation._finish_apply) and C03 (backtracking)"],
-        "explanation": "iteration.Engine.execute proved arm by arm: content(result) == rows(relation); RowIterable class contracts, Sort arm and converted callables assumed + bounded-checked",
+        "explanation": "iteration.Engine.execute proved arm by arm, including the Sort arm (loop invariant over the direction groups): content(result) == rows(relation); the RowIterable classes (constructors, __iter__ generators, conversion methods) and the converted callables are proved from their bodies (contracts/rowiter.py, itconv.py, sortarm.py)",
     },
     "C09": {
         "modules": ["persist"],
-        "extra": [_c09_extra],
+        "extra": [_c09_extra, _c09_frozen],
         "assumptions": [],
         "explanation": "hash/eq obligations on every dataclass reachable from Relation; frame obligation for every mutating statement of the library; no ambient-state imports",
     },
@@ -76,8 +91,8 @@ PROPS: dict[str, dict] = {
         "modules": ["lazy"],
         # the other postconditions of execute (row content, payload caching) are C01 / C10
         "only_clauses": {"iteration._engine:Engine.execute": ["a-lazy-tree-is-executed-without-starting-any-iteration"]},
-        "extra": [_c18_scan, _c18_extra],
-        "assumptions": ["constructing a generator-backed RowIterable and RowIterable.sliced start no iteration; to_mapping, materialized and the Sort arm's list() are the only iteration starts inside execute (class contracts / summary: assumed, bounded-checked)",
+        "extra": [_c18_scan, _c18_extra, _c18_frame, _rowiter_scan],
+        "assumptions": ["constructing a generator-backed RowIterable and RowIterable.sliced start no iteration (AST effect scan + the proved constructor contracts: they only store their arguments); to_mapping, materialized and the Sort arm's list() are the only iteration starts inside execute",
                         "the ghost counter RowIterable.iterations is specification state: the real classes keep no such counter",
                         "per-iteration clauses (single pass per full iteration, eager operations consume their input once at execute time, repeatable results) concern generator bodies outside the executor's subset: bounded stand-in replay/bounded_lazy.py only"],
         "explanation": "Engine.execute proved arm by arm: on a tree of lazy operations the iteration counters and payload cells are left exactly as found",
@@ -186,11 +201,11 @@ PROPS["C16"].update(
 )
 PROPS["C19"].update(
     level_text="get_relation_name is proved (exact model of its f-string, z3 strings) to return a name that starts with the prefix and ends with the 32-character hex of the uuid drawn by that very call; "
-               "LeafRelation.__post_init__ is proved to keep an explicit name and otherwise store exactly such a generated name; the lemma 'different 32-character suffixes give different names' is discharged by the string solver. "
+               "LeafRelation.__post_init__ and Engine.materialize are proved to keep an explicit name and otherwise store exactly such a generated name, untouched; the lemma 'different 32-character suffixes give different names' is discharged by the string solver. "
                "Uniqueness over every history and interleaving follows because no postcondition depends on the shared counter.",
     level_note=_COMMON_NOTE + "Assumed: uuid4 freshness (an assumed contract on an external function); schedules are not explored, the argument is independence from shared state.",
 )
-_LAWS = ("Law library spec/laws.py (algebra of filter/calc/proj/dedup/sort/slice/chain/join on row sequences): all 61 laws are machine-checked in Lean 4 over a concrete model "
+_LAWS = ("Law library spec/laws.py (algebra of filter/calc/proj/dedup/sort/slice/chain/join on row sequences, plus the row-at-a-time laws for generator bodies): 81 of 82 laws are machine-checked in Lean 4 over a concrete model "
          "(lean/RelAlg, compiled by MANIFEST.setup_cmd; statements transcribed by hand from the law table) and bounded-checked natively (spec/lawcheck.py); "
          "the evidence file lists any law whose Lean theorem did not compile in this installation as assumed; ")
 PROPS["C04"].update(
@@ -227,21 +242,23 @@ PROPS["C20"].update(
 PROPS["C09"].update(
     level_text="Generated from the current AST on every run and decided exactly (no sampling): (1) every dataclass that can occur in a relation tree is frozen-with-eq or identity-hashed and every compared field has a hashable declared type "
                "(equal trees then have equal hashes by dataclass semantics); (2) every statement that can write to an object (attribute/subscript/augmented assignment, object.__setattr__, mutating container methods) writes to an object allocated in the same call "
-               "(flow-aware freshness analysis) or to a declared cell (marker payload in attach_payload, engine name counter); (3) no ambient-state imports.",
+               "(flow-aware freshness analysis) or to a declared cell (marker payload in attach_payload, engine name counter); (3) no ambient-state imports; "
+               "(4) hashability of the stored VALUES: the symbolic executor tracks set-vs-frozenset through |, -, &, calls, fields and parameters and proves, at every construction of a frozen dataclass with a field declared frozenset[...] anywhere in the library, that a frozenset is stored (a set compares equal but makes the relation unhashable), and that functions declared '-> frozenset[...]' return one.",
     level_note="Trusted: the AST analyses in contracts/persist.py. Assumed: user tags/literal values hashable; SQLAlchemy builder calls are generative; reflection is not used to mutate objects; 'identical SQL text twice' only via purity. "
                "Freshness of Diagnostics.run's result is a proved contract obligation of C16.",
-    technique="frame and type obligations generated per mutating statement / per dataclass field from the current AST, decided by an intraprocedural freshness (ownership) analysis; no SMT needed",
+    technique="frame and type obligations generated per mutating statement / per dataclass field from the current AST, decided by an intraprocedural freshness (ownership) analysis; stored-frozenset obligations generated by symbolic execution of the real bodies of every function that constructs such a dataclass (static kind tracking, no SMT needed)",
 )
 PROPS["C12"].update(
     level_text="sql.Engine.convert_column_expression and convert_predicate are proved arm by arm (10 cells, recursion by contract, comprehensions over operand tuples): the built SQL term's value equals the expression's/predicate's value on every NULL-free integer row, "
                "relative to the stated denotation of the SQLAlchemy builder calls (BETWEEN inclusive, truncating %, ...); the range-literal arm is proved for all integer start/stop/step including descending ranges and negative starts (after the F12 repair). "
-               "The iteration engine's converted callables are only bounded-checked (replay/bounded_rowiter.py).",
-    level_note=_COMMON_NOTE + "Assumed: the SQL denotation model in contracts/sqlexpr.py and that the database implements it (no overflow); get_function returns operator.<name> for the portable names; three integer lemmas (spec/laws.py). Iteration side bounded only.",
+               "The iteration engine's convert_column_expression / convert_column_container / convert_predicate are proved as well (9+2+5 arms): the returned closure is executed symbolically on the witness row of 'the callable does not denote the expression' and shown to compute the expression's value (recursion by contract, comprehensions over operand tuples, all()/any()/in/not).",
+    level_note=_COMMON_NOTE + "Assumed: the SQL denotation model in contracts/sqlexpr.py and that the database implements it (no overflow); get_function returns operator.<name> for the portable names; three integer lemmas (spec/laws.py); stored callables are pure integer-valued functions of the row. One SQL cell (descending range with modulo) is covered by a bounded SQLite stand-in.",
 )
 PROPS["C01"].update(
     level_text="iteration.Engine.execute is proved arm by arm (13 cells): the returned iterable yields exactly the rows of direct evaluation of the tree (values, multiplicity, order), attached payloads are honoured, the three short-cuts (empty, join identity, payload) never change the result. "
-               "The generator-backed RowIterable classes, the inline Sort arm and the converted callables enter as class contracts / summaries that are ASSUMED and covered by a bounded native stand-in (labelled bounded). Known finding F8 (key-only deduplication) is re-proved with its witness class excluded.",
-    level_note=_COMMON_NOTE + _LAWS + "Not proved: RowIterable class contracts, Sort arm, convert_* closures (bounded stand-in replay/bounded_rowiter.py). Independence of construction-time merging/reordering is C05/C03.",
+               "Everything execute builds on is proved from the current source as well: every RowIterable constructor stores its arguments; every __iter__ (generator expressions and the generator function of SliceRowIterable, executed as loops with a ghost output sequence and loop invariants) yields the class's rows; to_mapping / to_sequence / materialized / sliced meet their contracts in every implementation; the attributes are bound nowhere but in __init__ (AST obligation); "
+               "the converted callables denote their expressions (contracts/itconv.py); the Sort arm (groupby on direction + one stable list.sort per group, from the last group to the first) is proved by a loop invariant to be the stable multi-key sort. Known finding F8 (key-only deduplication) is re-proved with its witness class excluded.",
+    level_note=_COMMON_NOTE + _LAWS + "Not Lean-proved (bounded-checked natively): law sortc-group (LSD radix-sort lemma for one direction group). Assumed: the model of Python rows / generators / dict comprehensions / groupby / list.sort stated in DESIGN 2.2; stored callables are pure and total. A bounded native cross-check of that model against CPython runs with the check (replay/bounded_rowiter.py). Expressions are over the portable operator set (the property's quantifier). Independence of construction-time merging/reordering is C05/C03 (their contracts are verified here through `depends` and the depth-1 dependency closure).",
 )
 PROPS["C10"].update(
     level_text="MarkerRelation.attach_payload (write-once, frame: only this marker's cell, rejected attach changes nothing) and BaseRelation.attach_payload (always TypeError) are proved; an AST scan proves the only payload write in the library is that statement; "
@@ -252,9 +269,9 @@ PROPS["C10"].update(
 )
 PROPS["C18"].update(
     level_text="iteration.Engine.execute is proved, arm by arm and by recursion, to start no iteration at all (ghost counters unchanged, no payload attached) on every tree made only of calculation, projection, selection, slice and chain over leaves, "
-               "payload-carrying or statically trivial subtrees and same-engine markers/transfers -- for all such trees. The remaining clauses (one pass over each leaf per full iteration, eager operations consume their input once at execute time, identical rows on repeated iteration) "
-               "are bounded-checked natively with counting leaf payloads (replay/bounded_lazy.py) and labelled bounded, not proved.",
-    level_note=_COMMON_NOTE + "Assumed: the iteration effects of the RowIterable class methods (constructors and sliced start none; to_mapping, materialized, list() may start any). Generator bodies (__iter__) are outside the executor's subset; their single-pass behaviour is bounded-checked only.",
+               "payload-carrying or statically trivial subtrees and same-engine markers/transfers -- for all such trees. Identical rows on repeated iteration: what an iterable yields is proved to be a function of its (immutable) attributes (contracts/rowiter.py), the Sort arm is proved to sort only a list it built itself, and the frame obligations of the iteration modules show nothing writes to an object it did not build. "
+               "The counting clauses (one pass over each leaf per full iteration; eager operations consume their input once, at execute time) are decided by the AST effect scan and bounded-checked natively with counting leaf payloads (replay/bounded_lazy.py), labelled bounded, not proved.",
+    level_note=_COMMON_NOTE + "Assumed: to_mapping, materialized and list() may start any number of iterations (ghost counter havocked). The number of iterations a generator body starts is not modelled by the executor: it is decided syntactically (effect scan) and bounded-checked.",
 )
 PROPS["C17"].update(
     level_text="Select coherence is a class invariant (rows(select.target) == slice(dedup?(proj?(sort(rows(skip_to))))) with the recorded operations; peeling the recorded slice/deduplication/projection/sort nodes off select.target arrives at skip_to; is_compound iff skip_to is a Chain node; "
